@@ -172,7 +172,7 @@ def coq_eval_bitlists(workdir, terms, shard=150, tag="bits", timeout=900):
         txt = m.group(1).replace("true", "1").replace("false", "0").replace(";", ",")
         return [[bool(b) for b in row] for row in json.loads(txt)]
 
-    with ThreadPoolExecutor(max_workers=int(os.environ.get("VERIF_JOBS", "16"))) as ex:
+    with ThreadPoolExecutor(max_workers=min(int(os.environ.get("VERIF_JOBS", "16")), 8)) as ex:
         parts = list(ex.map(one, files))
     return [r for p in parts for r in p]
 
@@ -798,7 +798,7 @@ def gen_cases(chk):
         c["stream"] = "corpus"
         cases.append(c)
     rng = chk.rng
-    nrand = 12000 if full else 1600
+    nrand = 12000 if full else 1200
     for i in range(nrand):
         fl = ("valid", "light", "light", "heavy")[i % 4]
         cases.append(random_dir_case(rng, fl))
@@ -812,12 +812,22 @@ def gen_cases(chk):
 # judging
 # ----------------------------------------------------------------------------------------
 
-def nontrivial(case):
-    """a directory case counts when it has a defect or a non-default data-set option or >= 2 utterances with
-    references; an rw case when a symbol is configured."""
+def nontrivial(case, r=None):
+    """a directory case counts when some call found a defect (raised, or changed a file) or when the data set has a
+    non-default option or the call produced a report with tokens or classes; an rw case when a symbol is configured."""
     if case["kind"] == "rw":
         return case["cfg"].get("sos") is not None or case["cfg"].get("eos") is not None
-    return len(case["utts"]) >= 1 and len(case["ops"]) >= 1
+    if not case["utts"] or not case["ops"]:
+        return False
+    if any(v not in (None, False) for v in case.get("cfg", {}).values()):
+        return True
+    for st in (r or {}).get("steps", []):
+        if st["out"]["exc"] or st["pre"] != st["post"]:
+            return True
+        rep = st["out"].get("report")
+        if rep and (rep["max_ali_class"] >= 0 or rep["max_ref_class"] >= 0):
+            return True
+    return False
 
 
 def classify(case, op, comp):
@@ -1004,7 +1014,7 @@ def run(chk, cases=None):
         "exception kind / parsed report and the re-read files are compared with PV.C12.Model.run_op (vm_compute) started from "
         "the observed previous state, and judged by PV.C12.Spec.spec_bits; rw case = a stored reference read through "
         "__getitem__ and hypotheses written through write_hyp of SpectDataSet/LangDataSet vs load_ref/write_hyp. "
-        "non-trivial = distinct digests of cases with at least one utterance and one call (directory) or a configured symbol (rw)")
+        "non-trivial = distinct digests of directory cases in which some call raised, changed a file, produced a report with classes/tokens, or ran through a data set with a non-default option; rw cases with a configured symbol")
     chk.assumptions += [
         "CUDA tensors cannot be produced on this machine: the cuda branches of the model (repair 1) are proved about but "
         "never exercised by the correspondence",
@@ -1020,7 +1030,7 @@ def run(chk, cases=None):
     res, per = _eval_cases(chk, cases)
     j = Judge(chk)
     for ci, (case, r, bits) in enumerate(zip(cases, res, per)):
-        chk.note_case({k: v for k, v in case.items() if k != "stream"}, nontrivial(case), streams[ci])
+        chk.note_case({k: v for k, v in case.items() if k != "stream"}, nontrivial(case, r), streams[ci])
         chk.count("kind=" + case["kind"])
         if case["kind"] == "dir":
             chk.count("n_utts=%d" % len(case["utts"]))
